@@ -39,6 +39,17 @@ pub const SEEDS: [&str; 11] = [
     "struct Q { name: string }\n\nfn main() {\n    // na\u{ef}ve \u{2603} \u{1F600} comment\n    let v_q: Q = Q { name: \"\u{e9}\u{2603}\u{1F600}\" };\n    let v_s: string = v_q.§name + \"\u{fc}\";\n    string_println(v_s)\n}\n",
 ];
 
+/// programs for the totality check only: well-formed syntax, ill-formed *types* and declarations
+/// (what an editor holds while a signature is being typed)
+pub const TOTAL_EXTRA: [&str; 2] = [
+    "struct Bx[T] { v: T }\n\nfn a[T](x: T[int32]) -> unit { let y = x.v; x.get() }\nfn b(x: int32[bool]) -> unit { x.v }\nfn c(x: Nope) -> unit { x.v }\nfn d(x: Nope[int32]) -> unit { x.v }\nfn e(x: Bx) -> unit { x.v }\nfn f(x: Bx[int32, bool]) -> unit { x.v }\nfn g(x: dyn Missing) -> unit { x.v }\nfn h[T](x: Bx[T[T]]) -> unit { x.v }\nfn i(x: [Nope; 2], y: Vec[T], z: Ref[Bx]) -> unit { x.v; y.v; z.v }\n\nfn main() {\n    let z: Nope[int32] = 1;\n    z.v;\n    Nope::thing;\n    Bx::v;\n    T::v\n}\n",
+    "trait Tr { fn m(Self) -> int32; }\nstruct S { a: int32 }\nimpl Tr for Nope { fn m(self: Nope) -> int32 { self.a } }\nimpl Nope { fn k(self: Nope) -> int32 { self.a } }\nimpl Missing for S { fn m(self: S) -> int32 { self.a } }\nimpl S { fn new(a: int32) -> S { S { a: a } } fn get(self: S) -> int32 { self.a } }\nimpl S { fn get(self: S) -> int32 { 2 } }\nenum E { A(Nope), B(S[int32]) }\n\nfn main() {\n    let s = S::new(1);\n    s.get();\n    s.new(2);\n    let e = E::A(s);\n    match e { E::A(q) => q.a, E::B(r) => r.a };\n    let d: dyn Missing = s;\n    d.m();\n    Tr::m(s)\n}\n",
+];
+
+fn total_seed_text(i: usize) -> String {
+    if i < SEEDS.len() { seed_text(i).0 } else { TOTAL_EXTRA[i - SEEDS.len()].to_string() }
+}
+
 /// declared types of the `v_*` binders (as the type printer renders them, spaces removed)
 pub const TYPED: [(&str, &str); 29] = [
     ("v_q", "Q"),
@@ -147,12 +158,12 @@ impl Family for QueryTotal {
         &["C20"]
     }
     fn rule(&self) -> &'static str {
-        "texts = every prefix at every char boundary (quick: every 4th) and every single-token deletion of 11 seed programs (one with 2-, 3- and 4-byte characters in a comment and in string literals); positions = every (line, byte col) incl. columns inside multi-byte characters, two columns past each line end and two lines past the end (quick: token boundaries ±1 and every byte column of tokens with non-ASCII text); requests = hover, dot-completion, colon-colon-completion; oracle = returns without panic within the cap; one case = one seed x mode x window of 40 texts; distinct = distinct (text, request) pairs that returned Some/Ok"
+        "texts = every prefix at every char boundary (quick: every 4th) and every single-token deletion of 11 seed programs (one with 2-, 3- and 4-byte characters in a comment and in string literals) and of 2 programs with well-formed syntax and ill-formed types / declarations (a type parameter applied to arguments, wrong arities, unknown types and traits, impls for unknown types, duplicate methods); positions = every (line, byte col) incl. columns inside multi-byte characters, two columns past each line end and two lines past the end (quick: token boundaries ±1 and every byte column of tokens with non-ASCII text); requests = hover, dot-completion, colon-colon-completion; oracle = returns without panic within the cap; one case = one seed x mode x window of 40 texts; distinct = distinct (text, request) pairs that returned Some/Ok"
     }
     fn cases(&self, _tier: Tier) -> Box<dyn Iterator<Item = Value> + '_> {
         let mut v = Vec::new();
-        for i in 0..SEEDS.len() {
-            let (text, _) = seed_text(i);
+        for i in 0..SEEDS.len() + TOTAL_EXTRA.len() {
+            let text = total_seed_text(i);
             let nb = text.chars().count() + 1;
             let mut lo = 0;
             while lo < nb {
@@ -177,7 +188,7 @@ impl Family for QueryTotal {
     fn run(&self, case: &Value, ctx: &mut Ctx) -> Report {
         let mut rep = Report::default();
         let si = case["seed"].as_u64().unwrap() as usize;
-        let (text, _) = seed_text(si);
+        let text = total_seed_text(si);
         let mode = case["mode"].as_str().unwrap();
         let (lo, hi) = (case["lo"].as_u64().unwrap() as usize, case["hi"].as_u64().unwrap() as usize);
         let quick = ctx.tier == Tier::Quick;
@@ -516,12 +527,27 @@ fn collect_vars(e: &compiler::tast::Expr, out: &mut Vec<(usize, usize, String)>)
         X::EPrim { .. } | X::ETraitMethod { .. } | X::EDynTraitMethod { .. } | X::EInherentMethod { .. } => {}
         X::EConstr { args, .. } => args.iter().for_each(|a| collect_vars(a, out)),
         X::ETuple { items, .. } | X::EArray { items, .. } => items.iter().for_each(|a| collect_vars(a, out)),
-        X::EClosure { body, .. } => collect_vars(body, out),
-        X::ELet { value, .. } => collect_vars(value, out),
+        X::EClosure { params, body, .. } => {
+            // binders: closure parameters
+            for p in params {
+                if let Some(ptr) = &p.astptr {
+                    let r = ptr.text_range();
+                    out.push((u32::from(r.start()) as usize, u32::from(r.end()) as usize, p.ty.to_pretty(80)));
+                }
+            }
+            collect_vars(body, out)
+        }
+        X::ELet { pat, value, .. } => {
+            collect_pat_binders(pat, out);
+            collect_vars(value, out)
+        }
         X::EBlock { exprs, .. } => exprs.iter().for_each(|a| collect_vars(a, out)),
         X::EMatch { expr, arms, .. } => {
             collect_vars(expr, out);
-            arms.iter().for_each(|a| collect_vars(&a.body, out));
+            arms.iter().for_each(|a| {
+                collect_pat_binders(&a.pat, out);
+                collect_vars(&a.body, out)
+            });
         }
         X::EIf { cond, then_branch, else_branch, .. } => {
             collect_vars(cond, out);
@@ -545,8 +571,29 @@ fn collect_vars(e: &compiler::tast::Expr, out: &mut Vec<(usize, usize, String)>)
     }
 }
 
+/// binders: every pattern variable with a source range
+fn collect_pat_binders(p: &compiler::tast::Pat, out: &mut Vec<(usize, usize, String)>) {
+    use compiler::tast::Pat as P;
+    match p {
+        P::PVar { ty, astptr, .. } => {
+            if let Some(ptr) = astptr {
+                let r = ptr.text_range();
+                out.push((u32::from(r.start()) as usize, u32::from(r.end()) as usize, ty.to_pretty(80)));
+            }
+        }
+        P::PConstr { args, .. } => args.iter().for_each(|a| collect_pat_binders(a, out)),
+        P::PTuple { items, .. } => items.iter().for_each(|a| collect_pat_binders(a, out)),
+        P::PPrim { .. } | P::PWild { .. } => {}
+    }
+}
+
 /// extra programs for the hover oracle: names that mean different things in different name spaces
-pub const HOVER_EXTRA: [&str; 2] = [
+pub const HOVER_EXTRA: [&str; 4] = [
+    // binders in every pattern form: shorthand and renaming struct-pattern fields, tuple and constructor
+    // patterns, nested; closure parameters with and without annotation
+    "struct Point { x: int32, y: string }\nenum Opt { Non, Som((int32, string)) }\n\nfn main() {\n    let p = Point { x: 1, y: \"s\" };\n    let Point { x, y } = p;\n    let Point { x: px, y: py } = p;\n    let (a, b) = (x, y);\n    let o = Opt::Som((px, py));\n    let r = match o {\n        Opt::Som((n, t)) => t + int32_to_string(n),\n        Opt::Non => b,\n    };\n    let q = match p {\n        Point { x, y: label } => label + int32_to_string(x + a),\n    };\n    let f = |u: int32, w| w + int32_to_string(u);\n    string_println(r + q + f(1, \"k\"))\n}\n",
+    // callees and receivers under prefix operators
+    "struct Flag { on: bool }\nimpl Flag { fn has(self: Flag, k: int32) -> bool { self.on } }\nfn f(a: int32) -> int32 { a }\nfn g(a: int32) -> bool { a > 0 }\n\nfn main() {\n    let fl = Flag { on: true };\n    let z = -f(1);\n    let n = !g(2);\n    let m = !fl.has(1);\n    let w = - f(f(3));\n    string_println(int32_to_string(z + w) + bool_to_string(n) + bool_to_string(m))\n}\n",
     // locals and fields spelled like functions; a generic function referenced at two instances
     "struct Buf { size: int64, len: int32 }\n\nfn len(s: string) -> int32 { 3 }\nfn size(b: Buf) -> int64 { b.size }\nfn id[T](x: T) -> T { x }\nfn twice(f: (int32) -> int32, x: int32) -> int32 { f(f(x)) }\nfn inc(x: int32) -> int32 { x + 1 }\n\nfn main() {\n    let buf = Buf { size: 2i64, len: 1 };\n    let l0 = len(\"x\");\n    let s0 = size(buf);\n    let len = 5;\n    let b = len + 1;\n    let size = buf.len;\n    let s = size + buf.len;\n    let k = id(1);\n    let t = id(\"s\");\n    let inc2 = twice(inc, 1);\n    let id2 = |id: int32| id + len;\n    string_println(t + int32_to_string(b + s + k + inc2 + id2(1) + l0) + int64_to_string(s0))\n}\n",
     // the same name bound at several depths with different types
@@ -563,7 +610,7 @@ impl Family for HoverAll {
         &["C20"]
     }
     fn rule(&self) -> &'static str {
-        "programs = the 11 query seed programs + 2 programs in which one spelling names a local, a field, a function and a closure parameter + the 74 corpus programs; for every identifier use that the compiler's typed tree records with a source range (variables, parameters, function references, generic functions at each instance) and every byte offset inside it: hover must report exactly the type the typed tree assigns to that use. non-trivial = uses whose spelling is also the name of a top-level function, a field or another binder of a different type; distinct = distinct (program, offset)"
+        "programs = the 11 query seed programs + 4 extra programs (binders in every pattern form incl. shorthand struct-pattern fields; callees and receivers under prefix operators; one spelling naming a local, a field, a function and a closure parameter) + the 74 corpus programs; for every identifier use and every binder (pattern variable, closure parameter) that the compiler's typed tree records with a source range (variables, parameters, function references, generic functions at each instance) and every byte offset inside it: hover must report exactly the type the typed tree assigns to that use. non-trivial = uses whose spelling is also the name of a top-level function, a field or another binder of a different type; distinct = distinct (program, offset)"
     }
     fn cases(&self, _tier: Tier) -> Box<dyn Iterator<Item = Value> + '_> {
         let n = SEEDS.len() + HOVER_EXTRA.len() + crate::families::text::corpus_sources().len() - 1;
